@@ -59,10 +59,11 @@ func TestMergeArrangements(t *testing.T) {
 	rapid.Check(t, func(t *rapid.T) {
 		ts := rapid.Int64Range(1, 4)
 		nmaps := rapid.IntRange(2, 6).Draw(t, "nmaps")
+		pool := gen.SeriesPool(1, 4).Draw(t, "hot-series")
 		family := make([][]*gostatsd.Metric, nmaps)
 		want := model.Agg{}
 		for i := range family {
-			family[i] = rapid.SliceOfN(gen.Datapoint(ts), 0, 10).Draw(t, fmt.Sprintf("map%d", i))
+			family[i] = rapid.SliceOfN(gen.DatapointFrom(pool, ts), 0, 10).Draw(t, fmt.Sprintf("map%d", i))
 			for _, m := range family[i] {
 				want.AddMetric(m)
 			}
